@@ -1508,9 +1508,9 @@ def encode_value(parsed_tag: dict) -> bytes:
 
         value_elements = parsed_tag["bool_elements"] or elements
         if data_type == "DWORD":
-            if (parsed_tag.get("bit") or 0) % 32:
+            if (parsed_tag.get("bit") or 0) % 32 or (parsed_tag["bool_elements"] or 0) % 32:
                 raise RequestError(
-                    "BOOL arrays only support writing full DWORDs, indexes must be multiples of 32"
+                    "BOOL arrays only support writing full DWORDs, indexes and element counts must be multiples of 32"
                 )
             parsed_tag["elements"] = elements = elements - (parsed_tag["bit"] or 0) // 32
 
